@@ -20,6 +20,8 @@ VARIANTS = {  # name -> (repeat, release-cancel, cancel-on-press)
 }
 SIG_RING = "[more than 4 macros were started without an idle point in between]"
 SIG_BLOCK = "[after macro-release-cancel]"
+SIG_ORDER = "C08 O1:"
+MAX_REPLAYS = 12
 
 
 # ---- macro bodies: text-level description -> .kbd text and -> monitor parameters (independent renderings)
@@ -122,18 +124,19 @@ S, C = ["lsft"], ["lctl"]
 def family(tier, rng):
     """(name, macros, plain keys, seqs bound, qmax)"""
     F = [
-        ("plain_grp", [("a", "macro", [G(S, "a", 2, "b"), "a"])], ("c",), 2, 2),
+        ("plain_grp", [("a", "macro", [G(S, "a", 3, "b"), "a"])], ("c",), 2, 2),
         ("relc_grp", [("a", "macro-release-cancel", [G(S, "a", "b"), 1, "a"])], ("c",), 2, 2),
-        ("pressc", [("a", "macro-cancel-on-press", ["a", MK(S, "b"), 2, "a"])], ("c",), 2, 2),
+        ("pressc", [("a", "macro-cancel-on-press", ["a", 3, MK(S, "b")])], ("c",), 2, 2),
         ("both_nest", [("a", "macro-release-cancel-and-cancel-on-press", [G([], "a", G([], "b", MK(S, "a")))])], ("c",), 2, 2),
         ("rep", [("a", "macro-repeat", ["a", 1, MK(S, "b")])], ("c",), 2, 2),
         ("rep_relc", [("a", "macro-repeat-release-cancel", [G(S, "a"), "b"])], ("c",), 2, 2),
+        ("rep_pressc", [("a", "macro-repeat-cancel-on-press", ["a", MK(S, "b")])], ("c",), 2, 2),
         ("two_disj", [("a", "macro", [G(S, "a", 1)]), ("b", "macro-release-cancel", [MK(C, "x"), "x"])], (), 2, 2),
         ("uni_relc", [("a", "macro", ["a", UNI("q"), "b"]), ("b", "macro-release-cancel", ["x"])], (), 2, 2),
     ]
     if tier != "quick":
         F += [
-            ("rep_pressc", [("a", "macro-repeat-cancel-on-press", ["a", MK(S, "b")])], ("c",), 2, 2),
+            ("pressc2", [("a", "macro-cancel-on-press", ["a", MK(S, "b"), 2, "a"])], ("c",), 2, 2),
             ("rep_both", [("a", "macro-repeat-release-cancel-and-cancel-on-press", [G(S, "a", 1, "b")])], ("c",), 2, 2),
             ("vkey", [("a", "macro", ["a", VK("v1", "z", 0), "b", 2])], ("c",), 2, 2),
             ("mods2", [("a", "macro-release-cancel", [MK(["lctl", "lsft"], "a"), G(["lctl", "lsft"], "b")])], ("c",), 2, 2),
@@ -303,6 +306,29 @@ def cancel_sweep(kbd, params, mkey, other, variant, span):
     return out
 
 
+MODEL_MUTANTS = (("seq_delay_short", "plain_grp", "C08 D1"), ("seq_delay_is_step", "plain_grp", "C08 S1"),
+                 ("cancel_keeps_fk", "relc_grp", "C08 C2"))
+
+
+def model_mutants(res, fam, wd):
+    """meta-check (DESIGN 3.4): L1 with a seeded design error must be rejected by P_C08 in TLC"""
+    byname = {f[0]: f for f in fam}
+    out = []
+    for bug, name, rule in MODEL_MUTANTS:
+        _, macros, plain, seqb, qmax = byname[name]
+        desc, params = make(macros, plain)
+        inst = {"name": "c08mm_" + bug, "kbd": cfgdesc.render_kbd(desc), "keys": [cfgdesc.code(k) for k in desc["keys"]],
+                "qmax": qmax, "bug": bug, "monitor": {"module": "P_C08", "params": params}, "invariants": [],
+                "constraint": "SeqBound",
+                "extra_defs": "SeqBound == mon.err # \"\" \\/ (Len(K.L.seqs) <= 1 /\\ ~mon.over)"}
+        r = mc.check_instance(inst, wd, workers=8, timeout=900, replay=False)
+        hits = sum(1 for l in open(r["monerr_file"]) if rule in l)
+        if hits == 0:
+            raise ToolError("model mutant %s is not rejected by P_C08 (%s expected)" % (bug, rule))
+        out.append({"bug": bug, "instance": name, "rule": rule, "witnesses": hits})
+    res.extra["model_mutants_rejected"] = out
+
+
 def run(tier, seed):
     res = flow.Result(PID, tier, seed)
     rng = random.Random(seed)
@@ -324,7 +350,10 @@ def run(tier, seed):
         res.notes.append("compile check: %d parser event lists differ from MacroExpand, e.g. %s" % (len(mis), mis[0]["text"]))
 
     # (2) L1 || P_C08 exhaustively, every transition replayed on the code
-    for name, macros, plain, seqb, qmax in family(tier, rng):
+    fam = family(tier, rng)
+    if not quick:
+        model_mutants(res, fam, wd)
+    for name, macros, plain, seqb, qmax in fam:
         desc, params = make(macros, plain)
         kbd = cfgdesc.render_kbd(desc)
         keys = [cfgdesc.code(k) for k in desc["keys"]]
@@ -365,6 +394,7 @@ def run(tier, seed):
     if not quick:
         burst_jobs += [burst_job(n, g, False) for n in (4, 5, 6) for g in (1, 3, 5)]
 
+    suppressed = 0
     for label, jobs in (("witness", witness_jobs), ("random", random_jobs), ("block", block_jobs), ("burst", burst_jobs)):
         if not jobs:
             continue
@@ -372,6 +402,9 @@ def run(tier, seed):
         errs, trace = record_and_validate(res, "P_C08", jobs, wd, "c08_" + label)
         for e in errs:
             j, s = script_of(jobs, e["job"], 0)
+            if len(res.violations) >= MAX_REPLAYS and not any(sg in e["err"] for sg in (SIG_RING, SIG_BLOCK, SIG_ORDER)):
+                suppressed += 1
+                continue
             flow.classify(res, PID, e["err"], e["err"] + " cfg=" + j["cfg"],
                           {"property": PID, "cfg": j["cfg"], "params": j["params"], "script": s, "err": e["err"],
                            "monitor": "P_C08"},
@@ -381,6 +414,8 @@ def run(tier, seed):
         if label == "burst":
             res.samples.append({"burst": jobs[1]["scripts"][0][:24], "cfg": jobs[1]["cfg"],
                                 "rejected": [e["err"] for e in errs][:4]})
+    if suppressed:
+        res.notes.append("%d further rejected traces not written as replay files (limit %d)" % (suppressed, MAX_REPLAYS))
     return flow.finish(
         res, "model_checking",
         "TLC enumerates the macro-body grammar and compares the parser's event list of every body with P_C08!MacroExpand; "
